@@ -366,11 +366,12 @@ func (s *verSys) renderModel() string {
 
 func init() {
 	Registry["C13"] = func(c *engine.Ctx) {
-		c.Rule = "state = canonical version-stack snapshot reached by a C05 history; evaluation = one ListObjectVersions request (prefix x delimiter, unpaginated; every max-keys 1..n+1 walked with the server's NextKeyMarker/NextVersionIdMarker; client marker pairs naming existing versions); distinct_nontrivial = distinct canonical states"
+		c.Rule = "state = canonical version-stack snapshot reached by a C05 history; evaluation = one ListObjectVersions request (prefix x delimiter, unpaginated; every max-keys 1..n+1 walked with the server's NextKeyMarker/NextVersionIdMarker; client marker pairs naming existing versions); plus, through the memory backend's Go API, a listing result kept by its caller across later listings; distinct_nontrivial = distinct canonical states"
 		c.Assumptions = append(c.Assumptions, "order of versions within one key is not fixed by the statement (the unpaginated order is the reference for paging)", "step divergences of the put/delete/version ops belong to C05 and prune the successor here")
 		runVer(c, "C13")
 		if c.Replay == nil {
 			bigVersions(c)
+			c13GoAPI(c)
 		}
 	}
 }
